@@ -69,7 +69,7 @@ pub fn spec(id: &str) -> Option<Spec> {
          level: "fault_enumeration",
          quick_cases: 40000,
          thorough_cases: 800000,
-         rule: "Fault = the virtual clock jumps past the timeout at clock reading k. For every group (program, input, knobs, schedule plan) a dry run with a stalled clock measures R, the number of clock readings of the uninterrupted run, and then every k in 1..=min(R, 99) is executed as its own case (run_timeout struck at k, then an uninterrupted run()); further slots of a group are seeded sequences of up to 4 interruptions (ticking clocks, large jumps, timeout 0, Duration::MAX, pushes in between). Returned false => state must be a sound under-approximation of the fixed point; any completed call => exactly the fixed point. Non-trivial = the deadline actually struck (run_timeout returned false at least once) or, for parallel variants, >= 1 preemption; distinct = distinct (trace hash, strike reading) pairs.",
+         rule: "Fault = the virtual clock jumps past the timeout at clock reading k. For every group (program, input, knobs, schedule plan) a dry run with a clock that ticks 1 ns per reading identifies the deadline checks of the uninterrupted run (the readings at which `elapsed()` is evaluated on the call's start instant), and then every deadline check (up to 49 per group; groups with more are counted as truncated) is executed as its own case: the clock jumps past the timeout exactly at that check, run_timeout returns false there, then an uninterrupted run() follows; further slots of a group are seeded sequences of up to 4 interruptions (ticking clocks, large jumps, timeout 0, Duration::MAX, pushes in between). Returned false => state must be a sound under-approximation of the fixed point; any completed call => exactly the fixed point. Non-trivial = the deadline actually struck (run_timeout returned false at least once) or, for parallel variants, >= 1 preemption; distinct = distinct (trace hash, strike reading) pairs.",
          assumptions: {
             let mut a = common_assumptions();
             a.push("the only time source of generated code is ascent::internal::Instant (checked by reading the generator); it is replaced by the virtual clock");
